@@ -77,6 +77,209 @@ def behaviours(ctx, key, num, depth=160):
     return out, r
 
 
+# ------------------------------------------------------------------ conducted replay
+# instances of spec/Producer.tla in hook normal form (spec/MCProducer.tla, ConductSpec) that record EVERY action
+CONDUCT = {
+    "conduct.p1": ("MCProducer.conduct.p1.cfg", dict(idem=False, retryMax=2, leaders=[1], nbrokers=1), 4, (0, 2)),
+    "conduct.p2b1": ("MCProducer.conduct.p2b1.cfg", dict(idem=False, retryMax=2, leaders=[1, 1], nbrokers=1), 4, (0, 2)),
+    "conduct.p2": ("MCProducer.conduct.p2.cfg", dict(idem=False, retryMax=2, leaders=[1, 2], nbrokers=2), 4, (0, 2)),
+    "conduct.idem": ("MCProducer.conduct.idem.cfg", dict(idem=True, retryMax=1, leaders=[1, 1], nbrokers=1), 4, (0, 3)),
+    "conduct.idem1": ("MCProducer.conduct.idem1.cfg", dict(idem=True, retryMax=2, leaders=[1], nbrokers=1), 4, (0, 3)),
+}     # last: submission windows simulated (0 = the application submits whenever it can, k = at most k messages without outcome)
+
+
+def conduct_steps(hist):
+    """one behaviour (every action of the model, in order) -> (conductor steps, broker plans, features).
+    Steps without a hook (partition worker start-up and its queued sub-steps, second visit of a worker to a message
+    after an epoch roll-over) are dropped: the real goroutines take them by themselves as soon as they can, which
+    is where the hook normal form of the generator puts them."""
+    steps, plans = [], {}
+    nreq = 0
+    outstanding = {}      # model broker-worker index -> number of its request at the cluster
+    skip_recv = set()     # (bp, id, part, retries, flag): the same message again after a roll-over
+    last_flush = {}
+    feat = dict(bounces=0, parked=0, late_fin=0, jumps=0, maxhwm=0, faults=0, conn=0, parts=set(), sends=0, multi=0, mixed=0)
+    parked_levels = {}    # partition -> retry levels of the messages parked in the current retry phase, in arrival order
+    for h in hist:
+        a = h["a"]
+        if a == "submit":
+            steps.append({"k": "submit", "id": h["id"], "part": PIDX[h["part"]]})
+            feat["parts"].add(h["part"])
+        elif a in ("disp", "rhdeq", "pprecv"):
+            st = {"k": a, "id": h["id"], "part": PIDX[h["part"]], "retries": h["retries"], "flag": h["flag"]}
+            steps.append(st)
+            if a == "pprecv":
+                last_flush.pop(h["part"], None)
+                hw = h["hwm"]
+                feat["maxhwm"] = max(feat["maxhwm"], hw, h["retries"])
+                if hw == 0:
+                    parked_levels[h["part"]] = []
+                if h["retries"] < hw:
+                    feat["late_fin" if h["flag"] == "fin" else "parked"] += 1
+                    if h["flag"] != "fin":
+                        lv = parked_levels.setdefault(h["part"], [])
+                        if lv and h["retries"] > min(lv):
+                            feat["mixed"] += 1      # a message of a higher level is parked after one of a lower level
+                        lv.append(h["retries"])
+                if h["retries"] > hw + 1:
+                    feat["jumps"] += 1
+        elif a == "ppstep":
+            if h["op"] == "flush":
+                if last_flush.get(h["part"]) != h["level"]:       # (a level is visited twice when a worker must be found first)
+                    steps.append({"k": "ppflush", "part": PIDX[h["part"]], "level": h["level"]})
+                last_flush[h["part"]] = h["level"]
+        elif a == "bprecv":
+            key = (h["bp"], h["id"], h["part"], h["retries"], h["flag"])
+            if key in skip_recv:
+                skip_recv.discard(key)
+                continue
+            steps.append({"k": "bprecv", "id": h["id"], "part": PIDX[h["part"]], "retries": h["retries"], "flag": h["flag"],
+                          "broker": BIDX[h["broker"]]})
+            if h["roll"]:
+                # the worker forces its buffer out and then takes the message: one hook, one more request
+                nreq += 1
+                outstanding[h["bp"]] = nreq
+                steps.append({"k": "bpsend", "broker": BIDX[h["broker"]], "req": nreq,
+                              "ids": {str(PIDX[p]): v for p, v in h["ids"].items() if v}})
+                skip_recv.add(key)
+        elif a in ("bpsend", "rbsend"):
+            nreq += 1
+            outstanding[h["bp"]] = nreq
+            ids = {str(PIDX[p]): v for p, v in h["ids"].items() if v}
+            steps.append({"k": "bpsend", "broker": BIDX[h["broker"]], "req": nreq, "ids": ids})
+            feat["sends"] += 1
+            if sum(len(v) for v in ids.values()) > 1:
+                feat["multi"] += 1
+        elif a == "handle":
+            n = outstanding.get(h["bp"], 0)
+            plan = {"hold": True, "part": {}}
+            if h["conn"] != "ok":
+                plan["conn"] = h["conn"]
+                feat["faults"] += 1
+                feat["conn"] += 1
+            for p, kind in h["kinds"].items():
+                if kind in ("ok", "retry", "retryapp", "fatal"):
+                    plan["part"][str(PIDX[p])] = kind
+                    if kind != "ok":
+                        feat["faults"] += 1
+            plans[str(n)] = plan
+            steps.append({"k": "handle", "req": n})
+        elif a == "bpresp":
+            steps.append({"k": "bpresp", "broker": BIDX[h["broker"]], "err": h["err"]})
+        elif a == "rbstart":
+            steps.append({"k": "rbstart", "part": PIDX[h["part"]]})
+        elif a == "move":
+            steps.append({"k": "move", "part": PIDX[h["part"]], "to": BIDX[h["to"]]})
+    feat["bounces"] = sum(1 for s_ in steps if s_["k"] == "rhdeq")
+    feat["parts"] = len(feat["parts"])
+    return steps, plans, feat
+
+
+def conducted(ctx, key, num, pool=None, depth=400):
+    """role 2 for conducted replay: simulate the model in hook normal form, keep `num` behaviours (those with retry
+    levels, parked messages, late chasers and level jumps first, then at random), and turn each into a scenario
+    whose internal steps the conductor of the Go driver follows at the hook points."""
+    import concurrent.futures
+    cfgname, dcfg, nmsgs, windows = CONDUCT[key]
+    pool = pool or max(15 * num, 600)       # behaviours simulated per submission window
+
+    def simulate(w):
+        cfgp = cfgname
+        if w:
+            # a derived instance: the same constants plus a submission window
+            with open(os.path.join(vlib.SPEC, "cfg", cfgname)) as f:
+                txt = f.read().replace("  Record <- RecordOn", "  Record <- RecordOn\n  SubmitWindow <- W%d" % w)
+            cfgp = os.path.join(ctx.scratch, "%s.w%d.cfg" % (key, w))
+            with open(cfgp, "w") as f:
+                f.write(txt)
+        r_ = ctx.tlc("MCProducer", cfgp, workers=2, timeout=600, simulate="num=%d" % (pool // 2), depth=depth, seed=ctx.seed,
+                     name="%s.w%d" % (key, w), heap="1g")
+        if r_.error and "CONDUCT" not in r_.out:
+            ctx.need(r_, "behaviour generation %s (window %d)" % (key, w))
+        return r_
+    with concurrent.futures.ThreadPoolExecutor(max_workers=len(windows)) as ex:
+        rs = list(ex.map(simulate, windows))
+    r = rs[0]
+    seen = {}
+    for k_, r_ in enumerate(rs):
+        for raw in r_.printed_raw("CONDUCT"):
+            js = vlib.tla_unquote(raw)
+            if js not in seen:
+                seen[js] = (windows[k_], json.loads(js))
+    cands = []
+    for js, (win, hist) in sorted(seen.items()):      # (TLC's simulation workers print in any order)
+        if sum(1 for h in hist if h["a"] == "submit") < nmsgs:
+            continue
+        steps, plans, feat = conduct_steps(hist)
+        if feat["bounces"] == 0:
+            continue
+        if dcfg["idem"] and feat["conn"] and ctx.tier == "quick":
+            # what the idempotent producer does after a connection-level failure is the territory of the recorded findings
+            # (known_findings.json; free-running families cover it): the quick tier conducts the other behaviours
+            continue
+        score = 4 * min(feat["late_fin"], 2) + 2 * min(feat["jumps"], 2) + 2 * min(feat["parked"], 3) + 6 * min(feat["mixed"], 2) + 2 * (feat["maxhwm"] >= 2) + \
+            (feat["parts"] >= 2) + (feat["multi"] > 0)
+        if dcfg["idem"]:
+            # what the idempotent producer does after a connection-level failure is the territory of the recorded findings
+            # (known_findings.json): behaviours without one say more
+            score -= 100 * feat["conn"]
+        cands.append((score, steps, plans, feat, win))
+    rnd = random.Random(ctx.seed * 7919 + len(key))
+    rnd.shuffle(cands)
+    # half of the behaviours: the best-scored ones of every window in turn; the other half at random
+    byw = {w: sorted([c_ for c_ in cands if c_[4] == w], key=lambda c_: -c_[0]) for w in windows}
+    top = []
+    while len(top) < (num + 1) // 2 and any(byw.values()):
+        for w in windows:
+            if byw[w] and len(top) < (num + 1) // 2:
+                top.append(byw[w].pop(0))
+    rest = [c_ for w in windows for c_ in byw[w]]
+    rnd.shuffle(rest)
+    out = []
+    for score, steps, plans, feat, win in top + rest[:num - len(top)]:
+        tail = [{"op": "conduct"}, {"op": "wait_outcomes", "n": nmsgs, "ms": 3000}]
+        # epilogue (free-running): the partitions must be back to normal - fresh messages flow and Close returns
+        extra = [(nmsgs + 1 + p_, p_) for p_ in range(len(dcfg["leaders"]))]
+        tail += submits(extra) + [{"op": "wait_outcomes", "n": nmsgs + len(extra), "ms": 3000}, {"op": "close"}]
+        # (requests are held by the broker across many conducted steps: the client must never time out on its own)
+        s_ = {"name": "%s#%d%s" % (key, len(out) + 1, "w%d" % win if win else ""), "family": key, "cfg": dict(dcfg, readTimeoutMs=60000), "plans": plans, "steps": tail,
+              "conduct": steps, "gates": []}
+        if len(out) % 2 == 1 or dcfg["idem"]:
+            # every other behaviour: a submission re-uses a message object the producer has already handed back (if there is
+            # one by then); to the producer that is a new message like any other
+            s_["recycle"] = True
+        out.append(s_)
+    return out, r, {"model": key, "simulated": len(seen), "with_retries": len(cands), "behaviours": len(out)}
+
+
+def conduct_stats(trace):
+    """soft numbers of the conducted replay (never part of a verdict): per family how many behaviours were handed to the
+    conductor, how many the real goroutines followed to the end, how many left the behaviour (`unsteered`, free-running
+    from there), steps followed, and the most frequent reasons for leaving"""
+    import re
+    fam, per, whys = {}, {}, {}
+    with open(trace) as f:
+        for line in f:
+            if '"ev":"reset"' in line[:40]:
+                e = json.loads(line)
+                fam[e["t"]] = e.get("family", "-")
+            elif '"ev":"conduct"' in line[:40]:
+                e = json.loads(line)
+                d = per.setdefault(fam.get(e["t"], "-"), dict(conducted=0, followed=0, diverged=0, steps=0, steps_followed=0, ms=0, forced_rh=0))
+                d["conducted"] += 1
+                d["followed" if e["followed"] else "diverged"] += 1
+                d["steps"] += e["steps"]
+                d["steps_followed"] += e["done"]
+                d["ms"] += e["ms"]
+                d["forced_rh"] += e.get("forced", 0)
+                if not e["followed"]:
+                    w = re.sub(r"\d+", "N", e["why"].split(";")[0])[:80]
+                    whys[w] = whys.get(w, 0) + 1
+    for d in per.values():
+        d["avg_ms"] = round(d.pop("ms") / max(1, d["conducted"]), 1)
+    return {"families": per, "left_because": dict(sorted(whys.items(), key=lambda kv_: -kv_[1])[:8])}
+
+
 # ------------------------------------------------------------------ deterministic families
 def sc(name, family, cfg, steps, plans=None, gates=None):
     return {"name": name, "family": family, "cfg": cfg, "plans": plans or {}, "steps": steps, "gates": gates or []}
@@ -730,7 +933,21 @@ def check(ctx, pid, families, mc_cfgs, level="model_checking", extra_assumptions
     """Common body of the producer checks: role 1 model checking, role 2 behaviours + deterministic
     families, execution on the real producer, role 3 validation; verdict from the property's clauses."""
     clauses = CLAUSES[pid]
-    st, tr, det = model_check(ctx, mc_cfgs)
+    # conducted replay: the behaviours are generated (TLC -simulate) while the model checking below runs
+    import concurrent.futures
+    only_conduct = bool(os.environ.get("VERIF_CONDUCT_ONLY"))      # demonstration runs: the conducted families alone
+    if only_conduct:
+        families = [f for f in families if isinstance(f, tuple) and f[0] == "conduct"]
+        mc_cfgs, extra_mc, close_stride = [], [], 0
+    if os.environ.get("VERIF_CONDUCT_OFF"):                        # timing comparisons: the check as it was without them
+        families = [f for f in families if not (isinstance(f, tuple) and f[0] == "conduct")]
+    pool = concurrent.futures.ThreadPoolExecutor(max_workers=4)
+    pending = {f: pool.submit(conducted, ctx, f[1], f[2]) for f in families if isinstance(f, tuple) and f[0] == "conduct"}
+    try:
+        st, tr, det = model_check(ctx, mc_cfgs)
+    except BaseException:
+        pool.shutdown(wait=True)
+        raise
     for module, cfg, expect in (extra_mc or []):
         r = ctx.tlc(module, cfg, timeout=1500, name=cfg.replace(".cfg", ""), deadlock=False)
         if expect:
@@ -750,6 +967,9 @@ def check(ctx, pid, families, mc_cfgs, level="model_checking", extra_assumptions
         if isinstance(f, tuple) and f[0] == "gen":
             scs, r = behaviours(ctx, f[1], f[2])
             gen_stats.append({"model": f[1], "behaviours": len(scs)})
+        elif isinstance(f, tuple) and f[0] == "conduct":
+            scs, r, gst = pending[f].result()
+            gen_stats.append(gst)
         else:
             scs = f()
             if ctx.tier == "thorough" and REPEAT_THOROUGH.get(pid, 1) > 1:
@@ -766,6 +986,7 @@ def check(ctx, pid, families, mc_cfgs, level="model_checking", extra_assumptions
         for s_ in scs:
             fam_counts[s_["family"]] = fam_counts.get(s_["family"], 0) + 1
         scenarios += scs
+    pool.shutdown(wait=False)
     if close_stride:
         import random as _r
         cp = close_points([s_ for s_ in scenarios if s_["family"] in ("faults1", "faults2", "exhaust", "gates")], close_stride, _r.Random(ctx.seed))
@@ -774,6 +995,16 @@ def check(ctx, pid, families, mc_cfgs, level="model_checking", extra_assumptions
     viols, stats, trace, cases = run_scenarios(ctx, scenarios, name=pid.lower())
     mine = [v for v in viols if v["clause"] in clauses]
     other = sorted({v["clause"] for v in viols if v["clause"] not in clauses})
+    cstats = {}
+    if any(k.startswith("conduct.") for k in fam_counts):
+        try:
+            cstats = conduct_stats(trace)
+            for k, d in sorted(cstats["families"].items()):
+                ctx.say("CONDUCT family=%s behaviours=%d followed=%d diverged=%d steps=%d/%d avg=%.0fms (soft; a behaviour that is left "
+                        "free-runs and is validated like any other execution)" % (k, d["conducted"], d["followed"], d["diverged"],
+                                                                                  d["steps_followed"], d["steps"], d["avg_ms"]))
+        except Exception as e:   # soft: never fail the check
+            cstats = {"error": str(e)[:200]}
     extra_cov = {}
     if EXTRA:
         mine += EXTRA["viols"]
@@ -791,6 +1022,7 @@ def check(ctx, pid, families, mc_cfgs, level="model_checking", extra_assumptions
         "scenarios_by_family": fam_counts,
         "behaviours_from_model": gen_stats,
         "partition_worker_conformance": stats.get("ppconf", {}),
+        "conducted_replay": cstats,
         "real_run_counts": {k: stats.get(k, 0) for k in ("successes", "errors", "appends", "requests", "retried", "gates", "unsteered", "skipped")},
         "clauses": sorted(clauses),
         "clauses_violated_for_other_properties": other,
